@@ -15,6 +15,7 @@ type unitSvc struct {
 	si     *svcInfo
 	gs     *goService
 	goName map[string]string // IDL function name -> Go method name (own functions)
+	leaked []string          // streaming functions (IDL names) that the processor registers although they must have been removed
 	note   string            // non-empty: not usable
 }
 
@@ -46,9 +47,25 @@ func matchServices(u *batch.UnitInfo, table []*svcInfo, scanned []*goService) []
 		for _, m := range si.Own {
 			own = append(own, m.Name)
 		}
+		removed := map[string]bool{}
+		for _, m := range si.Removed {
+			removed[m.Name] = true
+		}
 		for _, gs := range scanned {
-			if !taken[gs] && sameStrings(gs.procLits, own) {
-				us.gs = gs
+			if taken[gs] {
+				continue
+			}
+			// the registered names must be the kept functions; a streaming function among them is recorded (oracle failure)
+			var kept, extra []string
+			for _, l := range gs.procLits {
+				if removed[l] {
+					extra = append(extra, l)
+				} else {
+					kept = append(kept, l)
+				}
+			}
+			if sameStrings(kept, own) {
+				us.gs, us.leaked = gs, extra
 				taken[gs] = true
 				break
 			}
@@ -95,8 +112,12 @@ func matchServices(u *batch.UnitInfo, table []*svcInfo, scanned []*goService) []
 			}
 			us.goName[m.Name] = g
 		}
-		if us.note == "" && len(gs.methods) != len(si.Own) {
-			us.note = fmt.Sprintf("interface %s has %d methods, IDL service has %d functions", gs.iface, len(gs.methods), len(si.Own))
+		if us.note == "" && len(gs.methods) != len(si.Own)+len(us.leaked) {
+			var names []string
+			for _, m := range gs.methods {
+				names = append(names, m.name)
+			}
+			us.note = fmt.Sprintf("interface %s has the methods %v, the IDL service has %d non-streaming functions", gs.iface, names, len(si.Own))
 		}
 	}
 	// a service is usable only if its whole chain is
